@@ -24,6 +24,10 @@ Theorem C18_cpd : forall c best nd id, ~ c == 0 ->
   good_m None (Some c) {| fr_id := id; fr_best := Fin best; fr_nd := nd |} = true <-> best / (Zpos nd # 1) < c.
 Proof. exact C18_criterion_cpd. Qed.
 
+(* a source for which no fit was kept has no best chi^2 to be below a threshold: it goes to the bad file under every criterion *)
+Theorem C18_no_fit : forall chi cpd nd id, good_m chi cpd {| fr_id := id; fr_best := NaN; fr_nd := nd |} = false.
+Proof. exact C18_no_fit_lemma. Qed.
+
 Example C18_example :
   filter_output_m (Some 3) None [ {| fr_id := 0; fr_best := Fin 1; fr_nd := 2 |}; {| fr_id := 1; fr_best := Fin 5; fr_nd := 2 |};
                                   {| fr_id := 2; fr_best := Fin 2; fr_nd := 1 |} ]
